@@ -19,6 +19,7 @@ import segtree
 import segmodel
 import c01
 import dispatch
+import seg_hist
 
 REQUIRED = ['scatter_length', 'writes_commute_of_disjoint', 'partition_history', 'history_eq_whole_write',
             'scatter_get', 'scatter_untouched', 'fully_written_iff', 'store_complete_iff']
@@ -371,8 +372,9 @@ def run(tier):
     import gen_slices
     gen_info = gen_slices.generate(os.path.join(VERIF, 'lean', 'SarpyModel', 'Gen', 'Slices.lean'))
     gen_info['dispatch'] = dispatch.regen()
-    broken = chk.prove(['SarpyModel.Props.C07', 'SarpyModel.Props.C01', segmodel.WSEG_MODULE, 'SarpyModel.Drivers'] + dispatch.targets_writes(),
-                       'SarpyModel.Props.C07', 'Sarpy.Props.C07', REQUIRED, gen_info, extra=dispatch.extra_writes())
+    gen_info['segstate'] = seg_hist.regen()      # Gen/SegState.lean: the accounting sites and field writes of data_segment.py
+    broken = chk.prove(['SarpyModel.Props.C07', 'SarpyModel.Props.C01', segmodel.WSEG_MODULE, 'SarpyModel.Drivers'] + dispatch.targets_writes() + seg_hist.targets_writes(),
+                       'SarpyModel.Props.C07', 'Sarpy.Props.C07', REQUIRED, gen_info, extra=dispatch.extra_writes() + seg_hist.extra_writes())
     # the kernel bridges live in C01's namespace: they are obligations of this property too
     if not broken:
         from common import audit, ALLOWED_AXIOMS
@@ -463,8 +465,16 @@ def run(tier):
     except Infra as e:
         broken.append('dispatch model driver does not build/run: ' + str(e)[:300])
 
+    # ---- written-sample accounting: histories of write / write_raw chunks on ONE object, and SICDWriter write_raw histories
+    sh = seg_hist.run_writes(chk, tier, consumers=True)
+    fails += sh['fails']
+    disagreements += sh['disagreements']
+    broken += sh['broken']
+    chk.coverage['write_accounting'] = sh['stats']
+    stats['accounting_writes'] = sh['evaluations']
+
     chk.coverage.update({
-        'evaluations': stats.get('writes', 0) + len(drv_jobs) + chk.coverage.get('segment_model', {}).get('writes', 0) + stats.get('dispatch_puts', 0),
+        'evaluations': stats.get('writes', 0) + len(drv_jobs) + chk.coverage.get('segment_model', {}).get('writes', 0) + stats.get('dispatch_puts', 0) + stats.get('accounting_writes', 0),
         'distinct_nontrivial': len(seen),
         'rule': 'random writable segment trees (array/memmap leaves, identity and complex IQ/QI/MP/PM formats, subset (formatted / raw basis) incl. padded blocks, '
                 'reorientation, band and block aggregates) x random partitions of the formatted index set into rectangular chunks '
@@ -537,6 +547,8 @@ def replay(path):
         return dispatch.replay_case(case)
     if case['kind'] == 'kernel':
         return c01.replay(path)
+    if case['kind'].startswith('seghist'):
+        return seg_hist.replay_case(case)
     fails = []
     tmpdir = tempfile.mkdtemp(prefix='c07r_', dir='/var/tmp')
     try:
